@@ -393,7 +393,37 @@ def ob_end_to_end(wf):
         W = np.asarray(it.call(it.getattr(o, "calc_receive_filter"), [newH]), dtype=object)
         goals.append(Goal("receive filter inverts the effective channel: W newH == I", _meq(W.dot(newH), np.eye(2, dtype=object))))
         return goals
-    return verify(body, check_side=False, timeout_ms=120000, max_paths=32)
+
+    def rp(mv):
+        # value replay: the counter-model's channel (rows s_j (cos t_j, sin t_j)) and power on the real class
+        from pyphysim.comm import blockdiagonalization as bd
+        from .common import num
+        try:
+            cands = []
+            try:
+                cands.append(([float(num(mv.get("s%d" % j), 1.0)) for j in range(2)], [float(num(mv.get("t%d" % j), j + 0.4)) for j in range(2)],
+                              float(num(mv.get("iPu"), 1.0))))
+            except Exception:
+                pass
+            cands += [([1.0, 2.0], [0.3, 1.4], 1.5), ([0.2, 5.0], [2.0, -0.7], 0.25)]
+            for s_, t_, p_ in cands:
+                if not (s_[0] > 0 and s_[1] > 0 and p_ > 0 and abs(math.sin(t_[1] - t_[0])) > 1e-6):
+                    continue
+                H = np.array([[s_[j] * math.cos(t_[j]), s_[j] * math.sin(t_[j])] for j in range(2)])
+                o = bd.BlockDiagonalizer(2, p_, 0.1)
+                newH, Ms = o.block_diagonalize_no_waterfilling(H)
+                leak = max(abs((H[1 - k:2 - k, :] @ Ms[:, k:k + 1]).item()) for k in range(2))
+                pw = [float(np.linalg.norm(Ms[:, k]) ** 2) for k in range(2)]
+                W = o.calc_receive_filter(newH)
+                bad = (not (leak <= 1e-9 * np.abs(newH).max())) or (not (max(abs(x - p_) for x in pw) <= 1e-9 * p_)) or \
+                    (not (np.abs(W @ newH - np.eye(2)).max() <= 1e-8))
+                if bad:
+                    return {"confirmed": True, "channel": H.tolist(), "iPu": p_, "largest |H_j Ms_k| (j != k)": leak, "precoder powers": pw,
+                            "max |W newH - I|": float(np.abs(W @ newH - np.eye(2)).max())}
+            return {"confirmed": False, "note": "real block diagonalisation nulls the interference for these channels"}
+        except Exception as e:
+            return {"confirmed": False, "error": "replay crashed: %r" % (e,)}
+    return verify(body, check_side=False, timeout_ms=120000, max_paths=32, replay=rp)
 
 
 def _sqnorm(A):
